@@ -174,17 +174,40 @@ Theorem C05_two_reads_safe : forall dcf rackf (g : ring N) keyspaces en1 co1 en2
     (map fst (fallback dcf rackf g keyspaces en2 co2 shf pol rq cho shuf)) = true /\
   (en1 (fst p) = true /\ permitted dcf g pol rq (fst p) = true) /\
   (forall n, In n (map fst tl) -> en2 n = true /\ permitted dcf g pol rq n = true) /\
-  NoDup (map fst tl).
+  NoDup (map fst tl) /\
+  (let fb2 := map fst (fallback dcf rackf g keyspaces en2 co2 shf pol rq cho shuf) in
+   map fst tl = fb2 \/ exists a b, fb2 = a ++ fst p :: b /\ map fst tl = a ++ b).
 Proof. exact two_reads_safe. Qed.
 
 (* what does NOT survive: the picked replica, down by the time fallback() runs, reappears as a
-   shard-less "maybe down" target that the exact-equality filter of Plan does not remove — the
-   plan names node 1 twice and is ordered / complete for neither snapshot *)
+   shard-less "maybe down" target that the exact-equality filter of Plan does not remove.  The
+   witness plan names node 1 twice and is out of group order under the liveness pick() saw and
+   under the later one; it IS complete (every token-owning node is named). *)
 Theorem C05_two_reads_refuted :
   exists p, tw_plan = Some p /\ map fst p = [1; 2; 1]%N /\ ~ NoDup (map fst p) /\
-    plan_matches (fun _ => None) (fun _ => None) tw_g tw_ks tw_up tw_up tw_pol tw_rq (map fst p) = false /\
-    plan_matches (fun _ => None) (fun _ => None) tw_g tw_ks tw_up tw_co2 tw_pol tw_rq (map fst p) = false.
+    nondecreasing (map (group_of (fun _ => None) (fun _ => None) tw_g tw_ks tw_up tw_up tw_pol tw_rq) (map fst p)) = false /\
+    nondecreasing (map (group_of (fun _ => None) (fun _ => None) tw_g tw_ks tw_up tw_co2 tw_pol tw_rq) (map fst p)) = false /\
+    (forall n, In n (all_nodes tw_g) -> In n (map fst p)).
 Proof. exact two_reads_refuted. Qed.
+
+(* the witness is the two-read plan of a two-node ring whose node 1 loses its connections *)
+Example C05_ex_two_reads :
+  tw_plan = plan_two_reads (fun _ => None) (fun _ => None) [(10, 1%N); (20, 2%N)] [(0%N, Simple 1)]
+              (fun _ => true) (fun _ => true) (fun _ => true) (fun n => negb (N.eqb n 1)) (fun _ => 0%N)
+              {| pol_pref := None; pol_token_aware := true; pol_failover := false |}
+              {| rq_token := Some 5; rq_ks := Some 0%N; rq_lwt := false; rq_pref := PAny |}
+              (fun _ _ => 0%nat) (fun _ l => l) /\
+  tw_plan = Some [(1, Some 0); (2, None); (1, None)]%N /\
+  (* enabled changes too: node 2 disabled at the second read is simply absent from the rest *)
+  option_map (map fst) (plan_two_reads (fun _ => None) (fun _ => None) tw_g tw_ks tw_up tw_up
+     (fun n => negb (N.eqb n 2)) tw_up (fun _ => 0%N) tw_pol tw_rq (fun _ _ => 0%nat) (fun _ l => l)) = Some [1%N].
+Proof. repeat split; vm_compute; reflexivity. Qed.
+
+Example C05_ex_permitted :
+  map (permitted ex_dcf ex_g ex_pol (ex_rq false)) [1; 4; 9]%N = [true; true; false] /\
+  map (permitted ex_dcf ex_g {| pol_pref := Some (PDc 1); pol_token_aware := true; pol_failover := false |} (ex_rq false)) [1; 4; 9]%N
+    = [true; false; false].
+Proof. split; vm_compute; reflexivity. Qed.
 
 (* ---- non-vacuity: the 7-node, 2-datacenter ring of the repository's own tests -----------
    nodes A..G = 1..7; eu = 1, us = 2; racks r1 = 1, r2 = 2; keyspace 0 = NTS {eu:3, us:3} *)
